@@ -30,6 +30,30 @@ class Tr:
         self.n = 0
         self.nested = 0         # > 0 inside a closure body / match arm: checked arithmetic there is not hoisted
 
+    @staticmethod
+    def wrap(binds, inner):
+        for v, c in reversed(binds):
+            inner = "(Res.bind %s (fun %s =>\n      %s))" % (c, v, inner)
+        return inner
+
+    def finish_match(self, l, arms):
+        """arms: [(pattern text, term, binds made while translating the arm)].  Without checked arithmetic in any arm the
+        match is a plain term; otherwise every arm becomes a `Res` computation and the match is bound like a call."""
+        if not any(b for _, _, b in arms):
+            return "(match %s with\n%s)" % (l, "\n".join("    | %s => %s" % (p, t) for p, t, _ in arms))
+        text = "(match %s with\n%s)" % (l, "\n".join("    | %s => %s" % (p, self.wrap(b, "(Res.ok %s)" % t)) for p, t, b in arms))
+        v = self.fresh()
+        self.binds.append((v, text))
+        return v
+
+    def arm(self, body_tr, body, env):
+        outer, self.binds = self.binds, []
+        try:
+            t = body_tr(body, env)
+            return t, self.binds
+        finally:
+            self.binds = outer
+
     def fresh(self):
         self.n += 1
         return "t%d" % self.n
@@ -101,16 +125,13 @@ class Tr:
         n = pats[0][1]
         env2 = dict(env)
         env2[n] = ("node", ("%s_elem" % n, "%s_next" % n, "%s_len" % n))
-        self.nested += 1
-        body = body_tr(closure[2], env2)
-        self.nested -= 1
-        return "(match %s with\n    | Link.none => %s\n    | Link.some %s_elem %s_next %s_len => %s)" % (l, none_term, n, n, n, some_wrap % body)
+        body, bb = self.arm(body_tr, closure[2], env2)
+        return self.finish_match(l, [("Link.none", none_term, []), ("Link.some %s_elem %s_next %s_len" % (n, n, n), some_wrap % body, bb)])
 
     def match(self, e, env, body_tr):
         scrut, arms = e[1], e[2]
         l = self.link(scrut, env)
         out = []
-        self.nested += 1
         for arm in arms:
             pat, guard, body = arm[0], arm[1], arm[2]
             if guard is not None:
@@ -119,18 +140,20 @@ class Tr:
                 n = pat[2][0][1]
                 env2 = dict(env)
                 env2[n] = ("node", ("%s_elem" % n, "%s_next" % n, "%s_len" % n))
-                out.append("    | Link.some %s_elem %s_next %s_len => %s" % (n, n, n, body_tr(body, env2)))
+                t, bb = self.arm(body_tr, body, env2)
+                out.append(("Link.some %s_elem %s_next %s_len" % (n, n, n), t, bb))
             elif (pat[0] == "pctor" and pat[1] == ["Some"] and len(pat[2]) == 1 and pat[2][0][0] == "pwild"):
-                out.append("    | Link.some _ _ _ => %s" % body_tr(body, env))
+                t, bb = self.arm(body_tr, body, env)
+                out.append(("Link.some _ _ _", t, bb))
             elif pat[0] in ("ppath", "pctor") and pat[1] == ["None"]:
-                out.append("    | Link.none => %s" % body_tr(body, env))
+                t, bb = self.arm(body_tr, body, env)
+                out.append(("Link.none", t, bb))
             elif pat[0] == "pwild":
-                out.append("    | _ => %s" % body_tr(body, env))
+                t, bb = self.arm(body_tr, body, env)
+                out.append(("_", t, bb))
             else:
-                self.nested -= 1
                 raise LErr("pattern %r" % (pat,))
-        self.nested -= 1
-        return "(match %s with\n%s)" % (l, "\n".join(out))
+        return self.finish_match(l, out)
 
     def block(self, e, env, body_tr):
         stmts, tail = e[1], e[2]
@@ -178,8 +201,6 @@ class Tr:
         if k == "binary":
             op, a, b = e[1], e[2], e[3]
             if op == "+":
-                if self.nested:
-                    raise LErr("checked arithmetic inside a closure or match arm")
                 x, y = self.val(a, env), self.val(b, env)
                 t = self.fresh()
                 self.binds.append((t, "(Rt.addUsize %s %s)" % (x, y)))
